@@ -16,6 +16,10 @@ Three tiers of correspondence, all on the real code:
              that are not in the daemon's own blacklist PKGCORE_BLACKLIST_VARS (dumped by the daemon itself).
 File-mode hand-overs are also run as histories through one tmpdir: a mapping, a different mapping of the same serialised
 length, and the same again.
+Mappings are long-lived objects: the specification of a case is the mapping as built (kept aside, never shown to the real
+code); a copy of it — ONE object per case — goes through the real code for every hand-over of the case's history (2-5
+hand-overs over mixed routes in the pure/bash tier, the first mapping of a plan once more on the real daemon), each
+hand-over judged against the mapping as built.  Failing histories are reduced (entries, marked names, hand-overs, values).
 """
 import io
 import os
@@ -40,6 +44,9 @@ OBLIGATIONS = [
     "Pkgcore.C31.transfer_depend_exact",
     "Pkgcore.C31.env_arrives_from_inside_a_function",
     "Pkgcore.C31.receiving_frame_counterexample",
+    "Pkgcore.C31.handover_leaves_callers_mapping",
+    "Pkgcore.C31.every_handover_of_a_build_arrives",
+    "Pkgcore.C31.handover_nocopy_counterexample",
     "Pkgcore.C31.legacy_quote_counterexample",
     "Pkgcore.C31.legacy_elem_counterexample",
     "Pkgcore.C31.legacy_framing_counterexample",
@@ -75,14 +82,18 @@ RULE = ("environment mappings with 1-12 entries: names VT_*/_*/lower-case, ordin
         "alphanumerics, blanks, ' \" \\ $ ` newline tab CR, backslash sequences (\\n, \\', \\\\, \\x41, \\0), $VAR/${x}/$(cmd), "
         "glob and history characters, control bytes 0x01/0x7f/0x1b, 2-, 3- and 4-byte UTF-8 characters, empty and long "
         "values, and mappings of 68-110 KiB (long file-list array / one long value / hundreds of entries: more than a pipe holds); "
-        "random non-exported marker and readonly names; non-trivial = at least one value that needs quoting "
+        "random non-exported marker and readonly names; each mapping is one object handed over 1-5 times (inline / file / "
+        "depend-like routes mixed: the phases of a build), every hand-over judged against the mapping as built; non-trivial = at least one value that needs quoting "
         "(not purely alphanumeric); distinct by generated text")
 LEVEL_TEXT = ("Kernel-checked Lean 4 theorems over all mappings/texts: every NUL-free text quoted by _quote_value is read back by the "
               "bash evaluator as exactly its UTF-8 bytes (quote_roundtrip, also for array elements); the text of "
               "_generate_env_str evaluates to exactly the intended assignments and leaves exactly the wanted variables, exported "
               "unless marked (env_text_evaluates, env_arrives_exactly); the byte count announced by send_env / "
               "_run_depend_like_phase is exactly what read -N consumes, for every text and every continuation of the pipe, so the "
-              "channel stays synchronised (framing_*_correct, transfer_*_exact, inline, file and depend-like). The pre-fix "
+              "channel stays synchronised (framing_*_correct, transfer_*_exact, inline, file and depend-like); in a heap model of the "
+              "mapping object (dict(...) allocates, .pop mutates) a hand-over leaves the caller's mapping untouched and the k-th "
+              "hand-over of one object arrives exactly whatever was handed over before (handover_leaves_callers_mapping, "
+              "every_handover_of_a_build_arrives; handover_nocopy_counterexample: without the copy the 2nd one exports). The pre-fix "
               "behaviours are kept as counterexample theorems. Tied to the code by byte-exact comparison of the real "
               "_generate_env_str/send_env output with the model, by evaluating that output in the real bash, and by round "
               "trips through a real ebuild daemon.")
@@ -512,7 +523,9 @@ class StubProcessor:
 
     def depend(self, command, env, pkg):
         self._open(b"phases succeeded\n")
-        self.p._run_depend_like_phase(command, pkg, None, env=dict(env))
+        # the mapping object itself, as _run_depend_like_phase's callers pass it (expected_ebuild_env adds the package's
+        # PMS variables to it)
+        self.p._run_depend_like_phase(command, pkg, None, env=env)
         return self._written()
 
     def close(self):
@@ -528,6 +541,159 @@ class FakePkg:
 
     class eapi:
         ebd_env = {}
+
+
+# ---------------------------------------------------------------- hand-over histories of one mapping object
+
+ROUTES = ["inline", "file", "depend"]
+
+
+def snap(env):
+    """an independent copy of a mapping, values included: the object that goes through the real code, while the original is
+    kept aside as the specification"""
+    return {k: (v if isinstance(v, str) else list(v)) for k, v in env.items()}
+
+
+def drift(obj, ref):
+    """how the object handed to the real code differs from what the caller built (entries a hand-over adds by design —
+    expected_ebuild_env's PMS variables on the depend-like route — are not a difference)"""
+    out = []
+    for k, v in ref.items():
+        if k not in obj:
+            out.append(f"{k} removed")
+        elif (obj[k] if isinstance(obj[k], str) else list(obj[k])) != v:
+            out.append(f"{k} now {obj[k]!r}")
+    return out
+
+
+def gen_history(rng):
+    return [rng.choice(ROUTES) for _ in range(rng.choice([2, 2, 3, 3, 4, 5]))]
+
+
+def run_histories(stub, scratch, ro, lib, items):
+    """items: [(env, routes, piped)].  For each item ONE object (a copy of env) is handed to the real framing code once per
+    route, in order; every transfer is then received by the real bash with the daemon's own read functions and judged against
+    `env` (the property: exactly those values, exported unless marked, pipe still synchronised).
+    -> per item, per step: {how, chan, text, drift, st, got, failure}"""
+    jobs, where, piped_jobs, out = [], [], set(), []
+    tdir = os.path.join(scratch, "T ü")
+    os.makedirs(tdir, exist_ok=True)
+    for env, routes, piped in items:
+        obj = snap(env)
+        names = [k for k in env if k != MARKER and k not in ro]
+        steps = []
+        for how in routes:
+            o = {"how": how, "drift": drift(obj, env), "failure": None, "st": None, "got": None}
+            try:
+                if how == "inline":
+                    ok, chan = stub.send_env(obj)
+                    o["text"] = chan.split(b"\n", 1)[1] if b"\n" in chan else b""
+                    job = (chan + b"alive\n", names, "chan")
+                elif how == "file":
+                    ok, chan = stub.send_env(obj, tmpdir=tdir)
+                    want_hdr = ("start_receiving_env file " + os.path.join(tdir, "ebd-env-transfer") + "\n").encode("utf-8")
+                    if chan != want_hdr:
+                        o["failure"] = f"send_env(tmpdir) wrote {chan!r} to the pipe, expected {want_hdr!r}"
+                    o["text"] = open(os.path.join(tdir, "ebd-env-transfer"), "rb").read()
+                    job = (o["text"], names, "source")
+                else:
+                    # expected_ebuild_env adds the PMS variables of the package to the mapping; strip nothing, just use it
+                    chan = stub.depend("gen_metadata", obj, FakePkg)
+                    o["text"] = chan.split(b"\n", 1)[1] if b"\n" in chan else b""
+                    job = (chan + b"alive\n", names, "chan")
+                o["chan"] = chan
+            except Exception as e:  # noqa
+                o["chan"] = o["text"] = b""
+                o["failure"] = f"{type(e).__name__}: {str(e)[:200]} raised on a mapping inside the property's domain"
+                steps.append(o)
+                break
+            if piped:
+                piped_jobs.add(len(jobs))
+            jobs.append(job)
+            where.append(o)
+            steps.append(o)
+        out.append(steps)
+    for (env_i, o), (st, tail, vars_) in zip(_owner(items, out, where), run_bash(jobs, lib=lib, piped=piped_jobs)):
+        o["st"], o["got"] = st, store_of(vars_)
+        if o["failure"] is not None:
+            continue
+        want = wanted_store(env_i, ro)
+        how = o["how"]
+        if how != "file" and tail != b"alive\n":
+            o["failure"] = (f"after `read -N` of the announced count the pipe holds {tail[:60]!r} instead of the next "
+                            f"command b'alive\\n' ({how} transfer desynchronised)")
+        elif st != 0:
+            o["failure"] = f"bash failed (status {st}) evaluating the {how} transfer"
+        elif o["got"] != want:
+            bad = sorted(k for k in set(o["got"]) | set(want) if o["got"].get(k) != want.get(k))[:3]
+            o["failure"] = (f"{how} transfer: bash ends up with {[(k, o['got'].get(k)) for k in bad]!r}, "
+                            f"the mapping asks for {[(k, want.get(k)) for k in bad]!r}")
+    return out
+
+
+def _owner(items, out, where):
+    """(env, step) for every submitted job, in submission order"""
+    ids = {id(o): env for (env, _, _), steps in zip(items, out) for o in steps}
+    return [(ids[id(o)], o) for o in where]
+
+
+def describe(o, j, routes, first_ok):
+    """the violation text of step j of a history"""
+    if j == 0:
+        return o["failure"]
+    d = f"hand-over #{j + 1} of one mapping object (routes {' -> '.join(routes[:j + 1])}; as_built = \"env\"): " + o["failure"]
+    if o["drift"]:
+        d += f"; the earlier hand-over(s) changed the caller's mapping: {'; '.join(o['drift'])}"
+    if first_ok:
+        d += "; hand-over #1 of the same mapping arrived exactly"
+    return d
+
+
+def first_failure(steps):
+    for j, o in enumerate(steps):
+        if o["failure"] is not None:
+            return j, o
+    return None
+
+
+def shrink_history(stub, scratch, ro, lib, env, routes, rounds=12):
+    """greedy reduction of a failing (mapping, hand-over sequence): drop an entry, a marked name, a hand-over, or replace a
+    value by `v`, as long as the property still fails on the real code -> (env, routes, failing step, its index) or None"""
+    cur = run_histories(stub, scratch, ro, lib, [(env, routes, False)])[0]
+    ff = first_failure(cur)
+    if ff is None:
+        return None
+    best = (env, routes[:ff[0] + 1], ff[1], ff[0])
+    for _ in range(rounds):
+        env, routes = best[0], best[1]
+        cands = []
+        for k in env:
+            if k != MARKER:
+                cands.append(({x: y for x, y in env.items() if x != k}, routes))
+        if isinstance(env.get(MARKER), str):
+            ws = env[MARKER].split()
+            for w in ws:
+                cands.append((dict(env, **{MARKER: " ".join(x for x in ws if x != w)}), routes))
+            if not ws:
+                cands.append(({x: y for x, y in env.items() if x != MARKER}, routes))
+        for i in range(len(routes)):
+            if len(routes) > 1:
+                cands.append((env, routes[:i] + routes[i + 1:]))
+        for k, v in env.items():
+            if k != MARKER and v != "v":
+                cands.append((dict(env, **{k: "v"}), routes))
+        cands = [c for c in cands if any(k != MARKER for k in c[0])]
+        if not cands:
+            break
+        res = run_histories(stub, scratch, ro, lib, [(e, r, False) for e, r in cands])
+        for (e, r), steps in zip(cands, res):
+            ff = first_failure(steps)
+            if ff is not None:
+                best = (e, r[:ff[0] + 1], ff[1], ff[0])
+                break
+        else:
+            break
+    return best
 
 
 # ---------------------------------------------------------------- the real daemon
@@ -613,6 +779,7 @@ class Watchdog:
 
     def __init__(self, ebp, seconds=60):
         self.fired = False
+        self.seconds, self.ebp = seconds, ebp
         self.t = threading.Timer(seconds, self._kill, [ebp])
 
     def _kill(self, ebp):
@@ -625,6 +792,13 @@ class Watchdog:
     def __enter__(self):
         self.t.start()
         return self
+
+    def kick(self):
+        """restart the clock (unless it already fired)"""
+        if not self.fired:
+            self.t.cancel()
+            self.t = threading.Timer(self.seconds, self._kill, [self.ebp])
+            self.t.start()
 
     def __exit__(self, *a):
         self.t.cancel()
@@ -663,15 +837,19 @@ def _run(ctx, processor, rng, scratch):
         ctx.mismatch({"readonly": ro}, "the daemon no longer reports UID as readonly (corpus assumption)")
 
     # =================================================================== tier 1 + 2: pure + bash
+    # Every mapping is kept twice: `env`, what the caller built — the specification, never shown to the real code — and an
+    # object copied from it (`snap`) that goes through the real code, ONE object for all hand-overs of its history (ebd.py
+    # builds self.env once and hands it to run_phase for every phase).  Each hand-over is judged against `env`.
     t0 = time.time()
     envs = []
     if ctx.replay_cases:
-        envs += [(c["env"], c.get("kind", "replay")) for c in ctx.replay_cases if isinstance(c, dict) and "env" in c]
-    envs += [(e, "corpus") for e in CORPUS + ORACLE_ONLY_CORPUS]
+        envs += [(c["env"], c.get("kind", "replay"), c.get("handovers")) for c in ctx.replay_cases
+                 if isinstance(c, dict) and "env" in c and "env_second_transfer" not in c]
+    envs += [(e, "corpus", None) for e in CORPUS + ORACLE_ONLY_CORPUS]
     for i in range(ctx.n(1000, 15000)):
-        envs.append((gen_env(rng, i, ro=ro), "random"))
+        envs.append((gen_env(rng, i, ro=ro), "random", None))
     for i in range(ctx.n(3, 30)):
-        envs.append((gen_big(rng), "big"))
+        envs.append((gen_big(rng), "big", None))
     # histories on the transfer file: consecutive file-mode hand-overs through the same tmpdir whose texts differ but have
     # the same length (and one repeated unchanged)
     pairs = [e for e in CORPUS if same_length_sibling(e)] + [{"VT_flag": "4", "VT_ver": "1.2.3", "VT_phase": "compile"}]
@@ -680,25 +858,35 @@ def _run(ctx, processor, rng, scratch):
         if same_length_sibling(e):
             pairs.append(e)
     for e in pairs:
-        envs += [(e, "file-history"), (same_length_sibling(e), "file-history"), (same_length_sibling(e), "file-history")]
-    keyerr = [(e, "keyerror") for e in KEYERR_CORPUS]
+        envs += [(e, "file-history", ["file"]), (same_length_sibling(e), "file-history", ["file"]),
+                 (same_length_sibling(e), "file-history", ["file"])]
+    # histories on the mapping: the same object handed over 2-5 times, routes mixed (the phases of one build)
+    for e in CORPUS + ORACLE_ONLY_CORPUS:
+        envs.append((e, "reuse-history", ["inline", "file", "depend", "inline"]))
+    for i in range(ctx.n(150, 2500)):
+        e = gen_env(rng, 200000 + i, ro=ro)
+        if i % 2 and MARKER not in e:
+            e[MARKER] = " ".join(k for k in e if rng.random() < 0.5)
+        envs.append((e, "reuse-history", gen_history(rng)))
+    keyerr = [(e, "keyerror", None) for e in KEYERR_CORPUS]
 
     stub = StubProcessor(processor, ro)
+    lib = os.path.join(ebd_path, "ebuild-daemon-lib.bash")
     try:
         real = []
-        for env, kind in envs + keyerr:
+        for env, kind, _ in envs + keyerr:
             try:
-                text = stub.p._generate_env_str(env)
+                text = stub.p._generate_env_str(snap(env))
                 err = None
             except (KeyError, IndexError):
                 text, err = None, "reject"      # bad first character / empty name
             except Exception as e:  # noqa
                 text, err = None, type(e).__name__
             real.append((text, err))
-        reps = ctx.model([{"cmd": "c31.genenv", "ro": ro, "env": to_model_env(env)} for env, _ in envs + keyerr])
+        reps = ctx.model([{"cmd": "c31.genenv", "ro": ro, "env": to_model_env(env)} for env, _, _ in envs + keyerr])
 
-        jobs, jobinfo, piped = [], [], set()
-        for (env, kind), (text, err), rep in zip(envs + keyerr, real, reps):
+        items, iteminfo = [], []
+        for (env, kind, routes), (text, err), rep in zip(envs + keyerr, real, reps):
             case = {"env": env, "kind": kind}
             if rep == "bad-op":
                 ctx.mismatch(case, "driver rejected the request")
@@ -713,7 +901,6 @@ def _run(ctx, processor, rng, scratch):
                 continue
             nontrivial = any((not v.isalnum()) if isinstance(v, str) else any(not x.isalnum() for x in v)
                              for k, v in env.items() if k != MARKER)
-            ctx.case(case, nontrivial, key=text)
             ctx.count("entries_%d" % min(len(env), 12))
             ctx.count("kind_" + kind)
             for k, v in env.items():
@@ -731,70 +918,90 @@ def _run(ctx, processor, rng, scratch):
             # edge A: text of the real code == text of the model, byte for byte (also checks the UTF-8 encoder)
             if rep["ok"] != text:
                 ctx.mismatch(case, f"_generate_env_str gives {text!r}, the model gives {rep['ok']!r}")
-                rep = None      # the property is still evaluated on the real text below
+                rep = None      # the property itself is evaluated on the real code below, on every route and twice
+                routes = routes or (ROUTES + ["inline"])
             elif rep["bytes"].encode("latin-1") != text.encode("utf-8"):
                 ctx.mismatch(case, "the model's UTF-8 encoder disagrees with str.encode")
                 rep = None
-            names = [k for k in env if k != MARKER and k not in ro]
             # the real framing code: send_env inline, send_env file, _run_depend_like_phase (gen_metadata)
-            which = len(jobs) % 3
-            if kind == "file-history":
-                which = 1
+            piped = False
+            if routes is None:
+                routes = [ROUTES[len(items) % 3]]
+                if kind == "big":
+                    routes = ["inline" if len(items) % 2 == 0 else "depend"]
             if kind == "big":
-                which = 0 if len(jobs) % 2 == 0 else 2
-                piped.add(len(jobs))
+                piped = True
                 ctx.count("big_text_%d0KiB" % (len(text.encode("utf-8")) // 10240))
-            if which == 0:
-                ok, chan = stub.send_env(env)
-                jobs.append((chan + b"alive\n", names, "chan"))
-                jobinfo.append((case, rep, "inline", chan))
-            elif which == 1:
-                tdir = os.path.join(scratch, "T ü")
-                os.makedirs(tdir, exist_ok=True)
-                ok, chan = stub.send_env(env, tmpdir=tdir)
-                want_hdr = ("start_receiving_env file " + os.path.join(tdir, "ebd-env-transfer") + "\n").encode("utf-8")
-                if chan != want_hdr:
-                    ctx.violation(case, f"send_env(tmpdir) wrote {chan!r} to the pipe, expected {want_hdr!r}")
-                jobs.append((open(os.path.join(tdir, "ebd-env-transfer"), "rb").read(), names, "source"))
-                jobinfo.append((case, rep, "file", chan))
-            else:
-                chan = stub.depend("gen_metadata", env, FakePkg)
-                # expected_ebuild_env adds the PMS variables of the package to the mapping; strip nothing, just use it
-                jobs.append((chan + b"alive\n", names, "chan"))
-                jobinfo.append((case, None, "depend", chan))
-        # model framing for the inline jobs
-        freqs = [{"cmd": "c31.frame", "kind": "inline", "data": rep["ok"], "rest": "alive\n"}
-                 for (case, rep, how, chan) in jobinfo if how == "inline" and rep is not None]
-        fit = iter(ctx.model(freqs))
-        results = run_bash(jobs, lib=os.path.join(ebd_path, "ebuild-daemon-lib.bash"), piped=piped)
-        for (case, rep, how, chan), (st, tail, vars_) in zip(jobinfo, results):
-            env = case["env"]
-            want = wanted_store(env, ro)
-            got = store_of(vars_)
-            ctx.count("route_" + how)
-            if how == "inline" and rep is not None:
-                fr = next(fit)
-                if fr["sent"].encode("latin-1") != chan:
-                    ctx.mismatch(case, f"send_env wrote {chan[:80]!r}…, the model frames {fr['sent'][:80]!r}…")
-                if fr["recv"] is None or fr["recv"][1] != "alive\n":
-                    ctx.mismatch(case, "the model's daemon does not find the pipe synchronised after its own framing")
-            if how != "file" and tail != b"alive\n":
-                ctx.violation(case, f"after `read -N` of the announced count the pipe holds {tail[:60]!r} instead of the next "
-                                    f"command b'alive\\n' ({how} transfer desynchronised)")
-                continue
-            if st != 0:
-                ctx.violation(case, f"bash failed (status {st}) evaluating the {how} transfer")
-                continue
-            if got != want:
-                bad = sorted(k for k in set(got) | set(want) if got.get(k) != want.get(k))[:3]
-                ctx.violation(case, f"{how} transfer: bash ends up with {[(k, got.get(k)) for k in bad]!r}, "
-                                    f"the mapping asks for {[(k, want.get(k)) for k in bad]!r}")
-                continue
-            if rep is not None:
+            ctx.case(dict(case, handovers=routes), nontrivial, key=text + "|" + ",".join(routes))
+            ctx.count("handovers_of_one_object_%d" % len(routes))
+            if len(routes) > 1 and MARKER in env and set(env[MARKER].split()) & set(env):
+                ctx.count("reused_object_with_marked_names")
+            items.append((env, routes, piped))
+            iteminfo.append((case, rep))
+
+        outcomes = run_histories(stub, scratch, ro, lib, items)
+
+        # what the model says about the histories: the text of hand-over k of one object (heap model, theorem
+        # every_handover_of_a_build_arrives) — asked for the part of each history before its first depend-like step (that
+        # route legitimately adds the package's PMS variables to the caller's mapping)
+        def pure_prefix(routes):
+            return routes.index("depend") if "depend" in routes else len(routes)
+        hidx = [i for i, (env, routes, _) in enumerate(items) if len(routes) > 1 and pure_prefix(routes) > 0 and iteminfo[i][1]]
+        hreps = dict(zip(hidx, ctx.model([{"cmd": "c31.handovers", "ro": ro, "env": to_model_env(items[i][0]),
+                                           "n": pure_prefix(items[i][1])} for i in hidx])))
+        # model framing for the inline steps
+        fidx = [(i, j) for i, (env, routes, _) in enumerate(items) if iteminfo[i][1] is not None
+                for j, how in enumerate(routes) if how == "inline" and j < pure_prefix(routes)]
+        freps = dict(zip(fidx, ctx.model([{"cmd": "c31.frame", "kind": "inline", "data": iteminfo[i][1]["ok"], "rest": "alive\n"}
+                                          for i, j in fidx])))
+        failures = []
+        for i, ((env, routes, _), (case0, rep), steps) in enumerate(zip(items, iteminfo, outcomes)):
+            first_ok = steps[0]["failure"] is None
+            for j, o in enumerate(steps):
+                how = o["how"]
+                case = dict(case0, handovers=routes[:j + 1])
+                ctx.count("route_" + how)
+                if j:
+                    ctx.count("later_handover_of_the_same_object")
+                pure = j < pure_prefix(routes)
+                if o["failure"] is not None:
+                    failures.append((env, routes[:j + 1], describe(o, j, routes, first_ok), case))
+                    break
+                if o["drift"]:
+                    # theorem handover_leaves_callers_mapping: an earlier hand-over must not have touched the caller's entries
+                    ctx.mismatch(case, f"before hand-over #{j + 1} the mapping object differs from what the caller built "
+                                       f"({'; '.join(o['drift'])}); the model's hand-over leaves the caller's mapping alone")
+                if rep is None or not pure:
+                    continue
+                if (i, j) in freps:
+                    fr = freps[(i, j)]
+                    if fr["sent"].encode("latin-1") != o["chan"]:
+                        ctx.mismatch(case, f"send_env wrote {o['chan'][:80]!r}…, the model frames {fr['sent'][:80]!r}…")
+                    if fr["recv"] is None or fr["recv"][1] != "alive\n":
+                        ctx.mismatch(case, "the model's daemon does not find the pipe synchronised after its own framing")
+                if i in hreps:
+                    hr = hreps[i]
+                    if hr == "bad-op" or hr[j].get("ok") is None or hr[j]["ok"].encode("utf-8") != o["text"]:
+                        ctx.mismatch(case, f"hand-over #{j + 1} of one mapping object sends {o['text'][:200]!r}, the model's "
+                                           f"hand-over #{j + 1} sends {hr if hr == 'bad-op' else hr[j]!r}")
+                elif how == "file" and rep["ok"].encode("utf-8") != o["text"]:
+                    ctx.mismatch(case, f"the transfer file holds {o['text'][:200]!r}, the model gives {rep['ok'][:200]!r}")
                 if rep["eval"] is None:
                     ctx.mismatch(case, "the Lean bash evaluator does not support the text the real code produced")
-                elif store_of_assigns(rep["eval"]) != got:
+                elif store_of_assigns(rep["eval"]) != o["got"]:
                     ctx.mismatch(case, "the Lean bash evaluator and the real bash disagree on the produced text")
+        # the failing inputs: the first few are reduced (entries, marked names, hand-overs and values dropped while the property
+        # still fails on the real code) and reported first
+        for env, routes, detail, case in failures[:2]:
+            small = shrink_history(stub, scratch, ro, lib, env, routes)
+            if small is not None:
+                senv, sroutes, so, sj = small
+                ctx.violation({"env": senv, "kind": "shrunk-" + case["kind"], "handovers": sroutes},
+                              describe(so, sj, sroutes, sj > 0) + f" (reduced from a {len(env)}-entry mapping handed over "
+                              f"{len(routes)} time(s))")
+        ctx.extra["pure_tier_failing_histories"] = len(failures)
+        for env, routes, detail, case in failures[:12]:      # (the list of violations is capped; leave room for the daemon tier)
+            ctx.violation(case, detail)
     finally:
         stub.close()
 
@@ -874,7 +1081,8 @@ def _daemon(ctx, processor, rng, scratch, ro):
     frame_reqs, frame_seen = [], []
     from pkgcore.ebuild import const as e_const
     blacklist, ordinary = None, []
-    for env1, env2, env_routes in plans:
+    slowest = [1.0]
+    for plan_no, (env1, env2, env_routes) in enumerate(plans):
         for route in env_routes:
             if blacklist is not None:
                 # ordinary names (words, letters, the daemon's own function locals) next to the VT_ ones: all of them in the first
@@ -887,65 +1095,98 @@ def _daemon(ctx, processor, rng, scratch, ro):
                 for n in rng.sample(ordinary, min(12, len(ordinary))):
                     env2.setdefault(n, gen_value(rng) if rng.random() < 0.8 else [gen_value(rng), gen_value(rng)])
                 ctx.count("daemon_transfers_with_ordinary_names")
+            # the first plan (every plan in the thorough tier) hands its first mapping over once more at the end — the SAME
+            # object, as ebd.py passes self.env to run_phase for every phase of a build
+            again = plan_no == 0 or (not ctx.quick() and sum(len(str(v)) for v in env1.values()) < 20000)
             case = {"env": env1, "env_second_transfer": env2, "kind": "daemon-" + route}
             t_plan = time.time()
-            out = os.path.join(scratch, "dump")
-            if os.path.exists(out):
-                os.unlink(out)
-            ebp = processor.request_ebuild_processor()
-            rec = Recorder(ebp.ebd_write)
-            ebp.ebd_write = rec
-            err, seq = None, [env1, env2]
-            try:
-                with Watchdog(ebp) as wd:
-                    seq = [env1, env2]          # the second transfer on the same daemon is the "next request"
-                    if route == "file" and same_length_sibling(env2):
-                        seq.append(same_length_sibling(env2))       # same tmpdir, same length, different text
-                    for env in seq:
-                        if os.path.exists(out):
-                            os.unlink(out)
-                        extra = " ".join(k for k in env if not k.startswith("VT_") and k != MARKER and k not in ro)
-                        if route == "depend":
-                            e = dict(env, VTOUT=out, VTNAMES=extra)
-                            ebp._run_depend_like_phase("gen_ebuild_env", pkg, repo.eclass_cache, env=e,
-                                                       extra_commands={"receive_env": _receive_env})
-                            ok = True
-                        else:
-                            e = processor.expected_ebuild_env(pkg, depends=True)
-                            e.update(env, VTOUT=out, VTNAMES=extra, PATH=os.environ.get("PATH", "/usr/bin:/bin"), T=tdir)
-                            ok = ebp.run_phase("pretend", e, tmpdir=tdir if route == "file" else None, sandbox=False)
-                        if not ok:
-                            err = "the phase failed"
-                            break
-                        if not ebp.is_responsive:
-                            err = "the daemon does not answer `alive` after the transfer"
-                            break
-                        got = {k: ("a" in f, [x.decode("latin-1") for x in v], "x" in f) for k, (f, v) in parse_dump(out).items()}
-                        bl = got.pop("PKGCORE_BLACKLIST_VARS", None)
-                        if blacklist is None and bl is not None:
-                            blacklist = bl[1]
-                            ordinary = ordinary_names(e_const.EBD_PATH, blacklist, ro)
-                            ctx.extra["daemon_blacklist_entries"] = len(blacklist)
-                            ctx.extra["ordinary_names_sent"] = ordinary
-                        want = {k: v for k, v in wanted_store(env, ro).items() if k.startswith("VT_") or k in extra.split()}
-                        if got != want:
-                            bad = sorted(k for k in set(got) | set(want) if got.get(k) != want.get(k))[:3]
-                            err = (f"the daemon ends up with {[(k, got.get(k)) for k in bad]!r}, the mapping asks for "
-                                   f"{[(k, want.get(k)) for k in bad]!r}")
-                            break
-                    if wd.fired:
-                        err = "the daemon did not finish the round trip (killed by the watchdog)"
-            except Exception as ex:  # noqa: the property failing shows up as all kinds of processor errors
-                err = f"{type(ex).__name__}: {str(ex)[:300]}"
-            ebp.ebd_write = rec.inner
-            try:
-                if err is None:
-                    processor.release_ebuild_processor(ebp)
-                else:
-                    processor.drop_ebuild_processor(ebp)
-                    ebp.shutdown_processor(force=True)
-            except Exception:
-                pass
+            # a transfer that does not finish is a failure of the property (desynchronised pipe: both ends wait) — but on a
+            # heavily loaded machine a healthy round trip was seen to take 20-30 s; a plan stopped by the watchdog is therefore
+            # run once more on a fresh daemon with a much longer limit, and only that second outcome is reported
+            for attempt in (0, 1):
+                # per transfer; scaled by the slowest healthy transfer seen in this run (the machine's present speed)
+                limit = int(max(120, 6 * slowest[0])) if attempt == 0 else int(max(240, 20 * slowest[0]))
+                out = os.path.join(scratch, "dump")
+                if os.path.exists(out):
+                    os.unlink(out)
+                ebp = processor.request_ebuild_processor()
+                rec = Recorder(ebp.ebd_write)
+                ebp.ebd_write = rec
+                err, seq = None, [env1, env2]
+                try:
+                    with Watchdog(ebp, limit) as wd:
+                        seq = [env1, env2]          # the second transfer on the same daemon is the "next request"
+                        if route == "file" and same_length_sibling(env2):
+                            seq.append(same_length_sibling(env2))       # same tmpdir, same length, different text
+                        if again:
+                            seq.append(env1)
+                        case["sequence"] = ["env", "env_second_transfer"] + ["same-length sibling of env_second_transfer"] * (len(seq) - 2 - again) \
+                            + ["env (the same object as in the first transfer)"] * again
+                        handed = {}         # id(mapping as built) -> the one object the processor gets for it, every time
+                        for step, env in enumerate(seq):
+                            wd.kick()           # the limit is per transfer
+                            if step:
+                                slowest[0] = max(slowest[0], time.time() - t_step)
+                            t_step = time.time()
+                            if os.path.exists(out):
+                                os.unlink(out)
+                            extra = " ".join(k for k in env if not k.startswith("VT_") and k != MARKER and k not in ro)
+                            if id(env) in handed:
+                                e = handed[id(env)]
+                                ctx.count("daemon_handover_of_an_object_handed_over_before")
+                            elif route == "depend":
+                                e = dict(env, VTOUT=out, VTNAMES=extra)
+                            else:
+                                e = processor.expected_ebuild_env(pkg, depends=True)
+                                e.update(env, VTOUT=out, VTNAMES=extra, PATH=os.environ.get("PATH", "/usr/bin:/bin"), T=tdir)
+                            handed[id(env)] = e
+                            if route == "depend":
+                                ebp._run_depend_like_phase("gen_ebuild_env", pkg, repo.eclass_cache, env=e,
+                                                           extra_commands={"receive_env": _receive_env})
+                                ok = True
+                            else:
+                                ok = ebp.run_phase("pretend", e, tmpdir=tdir if route == "file" else None, sandbox=False)
+                            nth = f"transfer #{step + 1} on this daemon ({case['sequence'][step]}): "
+                            if not ok:
+                                err = nth + "the phase failed"
+                                break
+                            if not ebp.is_responsive:
+                                err = nth + "the daemon does not answer `alive` after the transfer"
+                                break
+                            got = {k: ("a" in f, [x.decode("latin-1") for x in v], "x" in f) for k, (f, v) in parse_dump(out).items()}
+                            bl = got.pop("PKGCORE_BLACKLIST_VARS", None)
+                            if blacklist is None and bl is not None:
+                                blacklist = bl[1]
+                                ordinary = ordinary_names(e_const.EBD_PATH, blacklist, ro)
+                                ctx.extra["daemon_blacklist_entries"] = len(blacklist)
+                                ctx.extra["ordinary_names_sent"] = ordinary
+                            want = {k: v for k, v in wanted_store(env, ro).items() if k.startswith("VT_") or k in extra.split()}
+                            if got != want:
+                                bad = sorted(k for k in set(got) | set(want) if got.get(k) != want.get(k))[:3]
+                                err = (nth + f"the daemon ends up with {[(k, got.get(k)) for k in bad]!r}, the mapping asks for "
+                                       f"{[(k, want.get(k)) for k in bad]!r}")
+                                d = drift(e, env)
+                                if d:
+                                    err += f"; earlier hand-overs changed the caller's mapping object: {'; '.join(d)}"
+                                break
+                except Exception as ex:  # noqa: the property failing shows up as all kinds of processor errors
+                    err = f"{type(ex).__name__}: {str(ex)[:300]}"
+                if wd.fired:
+                    err = (f"the daemon did not finish a transfer in time, nor on a fresh daemon within {limit} s, {int(limit / max(slowest[0], 0.1))} "
+                           f"times the slowest healthy transfer of this run (killed by the watchdog)"
+                           + (f" [{err}]" if err else ""))
+                ebp.ebd_write = rec.inner
+                try:
+                    if err is None:
+                        processor.release_ebuild_processor(ebp)
+                    else:
+                        processor.drop_ebuild_processor(ebp)
+                        ebp.shutdown_processor(force=True)
+                except Exception:
+                    pass
+                if not wd.fired:
+                    break
+                ctx.count("daemon_plan_repeated_after_watchdog")
             ctx.case(case, True, key=route + repr(sorted(env1.items())) + repr(sorted(env2.items())))
             ctx.count("daemon_" + route)
             ctx.extra.setdefault("daemon_plan_seconds", []).append([route, sum(len(str(v)) for v in env1.values()) // 1024, round(time.time() - t_plan, 1)])
